@@ -654,6 +654,7 @@ class Interp:
             if scheme == 'list':
                 it_arr, it_n, it_ek = it.arr, it.n, it.ek
                 env['_it'] = VList(it_arr, it_n, it_ek)       # ghost name of the sequence being iterated
+                env[f'_it{k}'] = env['_it']                   # ... by loop ordinal (nested loops)
             if scheme == 'set' and ek is None:
                 return    # empty literal container: no iteration
         # ghost iteration state
@@ -1547,6 +1548,10 @@ class Interp:
         is_gen = any(isinstance(n, (ast.Yield, ast.YieldFrom)) for n in walk_no_nested(fnode))
         if is_gen:
             nf.yielded = VList(None, z3.IntVal(0), None)
+            c_ = nf.contract
+            if c_ is not None and '_yielded' in c_.locals:
+                self.coerce_local(nf.yielded, c_.locals['_yielded'])
+            nf.env['_yielded'] = nf.yielded        # ghost name of what has been yielded so far
         try:
             self.exec_block(extract.strip_docstring(fnode.body), nf)
         except ReturnEx as r:
